@@ -32,6 +32,7 @@ META = {
     'assumptions': ['textbook definition of the eight rounding modes over Q (symx.proxies.round_spec, '
                     'symx.concrete.round_q)'],
 }
+META['bounds'].append('6 call sequences of quantize: equal quantity in another unit (3 unit pairs), default mode switched between calls (3 mode pairs)')
 
 
 # the fraction-flavoured path goes through symbolic numerator / denominator (non-linear link n == v*d): give
